@@ -76,6 +76,25 @@ PROPERTIES = {
                      'relative positioning: Move.unpack depends on offset and innermost-pkt-pos only (its contract); reference="begins" is excluded by the statement'],
     ),
     'C03': dict(level='translation_validation', functions=[], special_driver='pyvc/check_c03.py'),
+    'C16': dict(
+        level='proof',
+        functions=['C16#codegen:CodeGenerator.generate_code'],
+        native_probe='env_probe16',
+        trusted_base=['ASSUMED environment contracts (pyvc/envmodel.py) as for C15, plus: os.replace is atomic (the target has the whole content and the stamp of the source), '
+                      'tempfile.NamedTemporaryFile creates a new file under a name nobody else uses; cross-checked natively on every run (bounded)',
+                      'rely/guarantee soundness: the guarantee of every step of this function (the crash-point obligations: the cache invariant holds after each '
+                      'file-system operation) is the rely assumed about the other processes, which run the same code'],
+        assumptions=['PARTIAL FUNCTION: as C15 (tail of CodeGenerator.generate_code)',
+                     'CRASH POINTS: the process may die after any operation on the file system; a crash in the middle of one write() leaves some prefix of the chunk in a '
+                     'file that is already not honest at the preceding crash point unless it is a temporary file (so byte-level crash points are covered by the operation-level ones)',
+                     'CONCURRENCY is over-approximated by a rely condition (no interleaving is enumerated): before every environment operation other processes may replace any '
+                     'module file by a complete module of any declaration, remove or write bytecode, change stamps; they never delete a module file and never touch this process\' temporary file; '
+                     'threads of one process sharing sys.modules are outside the statement (processes)',
+                     'initial state: every file under __pkts__ was written by a completed or crashed run of the CURRENT code (torn files left by the in-place writer of earlier versions are not assumed away: they are unreachable after fix 9d79700)',
+                     'the pack_impl / unpack_impl attributes of a packet class are plain functions; file-system operations other than the modelled failures succeed'],
+        explanation='per-call contract with crash-point obligations (invariant after every file-system operation) and rely havoc before every operation; '
+                    'post: the class gets the code of its own declaration or keeps the generic drivers, and the definition does not fail',
+    ),
     'C15': dict(
         level='proof',
         functions=['codegen:CodeGenerator.generate_code'],
@@ -89,10 +108,10 @@ PROPERTIES = {
         assumptions=['PARTIAL FUNCTION: only the tail of CodeGenerator.generate_code after the last assignment of unpack_code is under contract (cut mechanically '
                      'on every run); the prefix that builds pack_code / unpack_code / import_code is dropped and replaced by the syntactic prefix-shape obligations',
                      'HonestCache: every file and cached bytecode under __pkts__ was written by an earlier completed run of this function (for any declaration); '
-                     'torn, foreign or concurrently modified files are the subject of C16 (not applicable)',
+                     'torn or concurrently modified files are the subject of C16',
                      'the pack_impl / unpack_impl attributes of a packet class are plain functions',
                      'the two generated code strings are self-delimiting (the hash of their concatenation determines both)',
-                     'file-system operations succeed (writable cache directory); thread interleavings and other processes running concurrently are C16'],
+                     'file-system operations succeed (writable cache directory); other processes running concurrently are C16'],
         explanation='per-call contract with an inductive invariant over the cache state: histories of definitions are covered by quantifying over all HonestCache states',
     ),
     'C09': dict(
@@ -268,6 +287,17 @@ MANIFEST_TEXT = {
              'replays definition histories on the real builder and gives concrete failing histories). Only the tail of the function is under contract (partial function, cut '
              'mechanically); torn / foreign files, crashes and concurrent processes are C16.',
         technique='contract-based deductive verification of the real function tail (VCs from the python ast, z3/cvc5) under assumed environment contracts; bounded native probe as cross-check'),
+    'C16': dict(
+        text='Proof in a rely/guarantee formulation over the same environment contracts as C15: (crash) after EVERY file-system operation of the real tail of '
+             'CodeGenerator.generate_code the cache invariant holds - no module name ever designates a partially written file (the module is written to a temporary file and '
+             'moved into place atomically) - so a fresh process after any crash point is in the situation proved for C15; (concurrency) with the file system havoced before every '
+             'operation within what other processes running the same code can do, the definition raises nothing and the class ends up with the function generated for ITS OWN '
+             'declaration or keeps the generic drivers (never code of another declaration, never a truncated module).',
+        note='Interleavings and crash points are not enumerated: crash points are obligations at every environment operation, schedules are over-approximated by rely havoc. '
+             'Three genuine defects were found by these obligations on the pinned tree, reproduced natively (crash replay at byte granularity, single interleavings) and repaired in /repo '
+             '(fix: 9d79700 atomic write, a99f3c4 cookie re-check after reload, b35af89 tolerant bytecode removal); the native replays run on every check (bounded). '
+             'Environment contracts are assumed (cross-checked natively); threads sharing one sys.modules are outside the statement.',
+        technique='contract-based deductive verification of the real function tail with crash-point invariant obligations and rely/guarantee interference (VCs from the python ast, z3/cvc5) under assumed environment contracts; bounded native crash / interleaving replay as cross-check'),
     'C13': dict(
         text='Proof of the frame (modifies) clause and the freshness clauses of every pack / unpack / init function under contract: each writes only slots of its own packet argument, freshly allocated objects '
              'and (pack) the fragments argument; shared field objects are not written after compilation; objects stored into slots are fresh or immutable or supplied by the caller; pack leaves every field value unchanged. '
@@ -351,9 +381,6 @@ MANIFEST_TEXT = {
 }
 
 NOT_APPLICABLE = {
-    'C16': 'quantifies over crash points of a writer process and interleavings of the file operations of several processes; contract-based verification of '
-           'sequential code has no handle on another process or on a crash between two system calls except an assumed rely/havoc model of the file system '
-           'and importer, which could not be validated in this round (DESIGN.md 6); the defects expected there (K16a-c of DESIGN.md 4.C16) are therefore not decided.',
     'C18': 'the property is a statement about the language of regular-expression TEXT assembled by string operations (bin(), str.replace, int(s, 2), '
            're.escape, %-formatting, b"".join) and interpreted by the re engine; Bits.pack_regexp and FragmentsOfRegexps are outside the python subset of the '
            'VC generator, and a contract could only state the property relative to an assumed denotational semantics of pattern text, which would carry the '
